@@ -31,7 +31,9 @@ def generate_cases(run, tier, big=True):
         bfs = [(1, False, ['A'], True), (0, True, ['E', 'I'])]
         sim = ('num=50', 3, ['I', 'E'])
     else:
-        bfs = [(2, False, ['E', 'I', 'A']), (1, True, ['E', 'A'], True)]
+        # (depth 2 over three tag defaults: 20 000 types with their value tables; the 16 driver processes, each holding its
+        # share of the cases, were killed by the kernel for lack of memory)
+        bfs = [(2, False, ['A']), (1, True, ['E', 'I', 'A'], True)]
         sim = ('num=250', 6, ['E', 'I', 'A'])      # per TLC worker (4 workers): about one behaviour per second and worker
     cases = []
     big_ok = big
